@@ -24,7 +24,8 @@ from vf import progmodel as pm
 
 PROPERTY = 'C04'
 LEVEL = 'exploration'
-RULE = ('one case = (program of the family, mode in {abort, sigint, inline, double, stress}, '
+RULE = ('one case = (program of the family (eleven programs; one has a main body blocked in a C '
+        'wait with cancel_timeout_s = 50 ms and teardown phases that use the test API), mode in {abort, sigint, inline, double, stress}, '
         'pause point (thread role, function, line, hit) taken from a discovery run of that '
         'program, or a seed); every line reached by any family program (first and second hit) is the '
         'pause point of one simple abort, and every line reached by the aborting thread is '
@@ -101,6 +102,11 @@ FAMILY = [
     # 8: body that runs until it is killed
     ([_p('a', plugs=[0]), ['G', [_p('s')], [_p('m', r='H')], [_p('t1')]], _p('z')],
      {}),
+    # 10: main body blocked in a C wait (a kill request has no effect, stop()
+    # gives up after cancel_timeout_s) and teardown phases that use the test API
+    ([_p('a', plugs=[0]), ['G', [_p('s')], [_p('m', r='HU')],
+                            [_p('t1', m='pass'), _s('t2', 0.005, m='pass')]], _p('z')],
+     {'cancel_timeout_s': 0.05}),
     # 9: long teardown (for second aborts)
     ([['G', [_p('s', plugs=[0])], [_s('m', 0.01, noarg=True)],
        [_s('t1', 0.03, noarg=True), _s('t2', 0.03), _p('t3')]], _p('z')], {}),
@@ -214,6 +220,9 @@ def discover(fi):
     if any(n[0] == 'P' and n[2].get('r') == 'H' for n, _ in pm.walk(prog)):
       # the hanging body only ends by an abort: discover with one
       obs = abortlab.run(prog, cfg, target=None, abort_after_event=('hang', 'm'))
+    elif any(n[0] == 'P' and n[2].get('r') == 'HU' for n, _ in pm.walk(prog)):
+      obs = abortlab.run(prog, cfg, target=None,
+                         abort_after_event=('hang_unkillable', 'm'))
     else:
       obs = abortlab.run(prog, cfg, target=None)
     by_role = {'exec': [], 'phase': [], 'main': []}
@@ -247,7 +256,7 @@ def cover_list():
 
 def slow_pid(prog, cfg):
   for n, _ in pm.walk(prog):
-    if n[0] == 'P' and (n[2].get('slow') or n[2].get('r') == 'H') and \
+    if n[0] == 'P' and (n[2].get('slow') or n[2].get('r') in ('H', 'HU')) and \
         n[1] not in ('start',):
       return n[1]
   return None
@@ -395,7 +404,9 @@ def run_case_inner(case):
   elif mode == 'aabort':
     # the aborting thread itself is held at a line of its own path
     hang_body = any(n[0] == 'P' and n[2].get('r') == 'H' for n, _ in pm.walk(prog))
-    ev = ('hang' if hang_body else case['when'], slow_pid(prog, cfg))
+    hu_body = any(n[0] == 'P' and n[2].get('r') == 'HU' for n, _ in pm.walk(prog))
+    ev = ('hang' if hang_body else 'hang_unkillable' if hu_body else case['when'],
+          slow_pid(prog, cfg))
     akey = (fi, ev)
     if akey not in _APOINTS:
       d = abortlab.run(prog, cfg, abort_after_event=ev, abort_in_thread=True)
@@ -573,6 +584,8 @@ def judge(prog, cfg, obs, ctx, mode, not_running=False):
       open_body = e[3]
     elif e[2] == 'end' and open_body == e[3]:
       open_body = None
+    elif e[2] == 'hang_unkillable' and open_body == e[3]:
+      open_body = None    # blocked in C for good: abandoned, not "running"
   # (9) a running cooperative body was asked to terminate ---------------------
   hangs = [e for e in ev if e[2] == 'hang' and e[0] < a1c]
   cleanup = seq_of('cleanup_abort')
@@ -582,6 +595,32 @@ def judge(prog, cfg, obs, ctx, mode, not_running=False):
                  (cleanup is None or e[0] < cleanup) for e in ev)
     if not killed and h[3] not in tds:
       bad('running-body-not-asked-to-terminate', phase=h[3])
+  # (10) what a body that ran to completion did is what its record says ---------
+  behs = {n[1]: n[2] for n, _ in pm.walk(prog) if n[0] == 'P'}
+  recs_by_name = {}
+  for p in obs.get('phases') or []:
+    recs_by_name.setdefault(p[0], []).append(p)
+  meas = dict((name, dict(ms)) for name, ms in (obs.get('meas') or []))
+  for pid, beh in behs.items():
+    if beh.get('r', 'C') not in ('C', None) or pid not in recs_by_name:
+      continue
+    first_start = [e[0] for e in ev if e[2] == 'start' and e[3] == pid][:1]
+    if a1r is None or a2c is not None or not first_start or first_start[0] < a1r:
+      continue   # only bodies begun after the (single) abort had returned:
+                 # nothing is allowed to kill those
+    ends = [e for e in ev if e[2] == 'end' and e[3] == pid]
+    raised = [e for e in ev if e[2] == 'raised' and e[3] == pid]
+    odd = [e[5] for e in raised if e[5] != 'ThreadTerminationError']
+    if odd:
+      bad('phase-body-raised-unexpectedly:' + odd[0], phase=pid)
+    elif ends and not raised and len(recs_by_name[pid]) == 1:
+      c['completed_bodies_judged'] = c.get('completed_bodies_judged', 0) + 1
+      rec = recs_by_name[pid][0]
+      if beh.get('m') == 'pass' and meas.get(pid, {}).get('m_' + pid) != 'PASS':
+        bad('measurement-of-completed-body-not-recorded', phase=pid,
+            got=meas.get(pid))
+      elif rec[1] != 'PASS' and beh.get('m') in (None, 'pass') and not beh.get('ds'):
+        bad('completed-body-not-recorded-PASS', phase=pid, record=rec[:3])
   # (3) teardown of entered groups + plug tearDown ----------------------------
   if obs.get('phases') is not None and cbs:
     o2 = dict(obs)
